@@ -206,8 +206,8 @@ func (i *Index) AddDesc(d Descriptor, opts ...IndexOpt) {
 			}
 		}
 	}
-	// remove child entry if found
-	for ci := 0; ci < len(i.childManifests); ci++ {
+	// remove child entry if found, a referrers response does not take the place of the entry for a manifest
+	for ci := 0; referrer == "" && ci < len(i.childManifests); ci++ {
 		if i.childManifests[ci].Digest == d.Digest {
 			i.childManifests[ci] = i.childManifests[len(i.childManifests)-1]
 			i.childManifests = i.childManifests[:len(i.childManifests)-1]
@@ -239,6 +239,11 @@ func (i *Index) AddDesc(d Descriptor, opts ...IndexOpt) {
 	// search for matching or compatible entry
 	for mi, md := range i.Manifests {
 		if md.Digest == d.Digest {
+			// a referrers response is tracked with its own entry, it is removed when the response changes
+			// and the same content may have been pushed as a manifest
+			if (referrer == "") != (md.Annotations == nil || md.Annotations[AnnotReferrerSubject] == "") {
+				continue
+			}
 			if tag == "" && referrer == "" {
 				return
 			}
@@ -282,6 +287,10 @@ func (i *Index) RmDesc(d Descriptor) {
 	found := false
 	for mi := len(i.Manifests) - 1; mi >= 0; mi-- {
 		if d.Digest != "" && i.Manifests[mi].Digest == d.Digest {
+			if tag != "" && i.Manifests[mi].Annotations != nil && i.Manifests[mi].Annotations[AnnotReferrerSubject] != "" {
+				// the entry of a referrers response is not the untagged entry that is left for the digest
+				continue
+			}
 			if tag != "" {
 				// deleting a tag leaves one untagged manifest entry
 				// an entry that was untagged before has an empty annotation map instead of nil
